@@ -599,7 +599,15 @@ func execC13(t *testing.T, w *core.World, p *run.Plan, r *run.Result) {
 		// L4 (bounded liveness of the refresh): the best connection is dead or more than two blocks behind while
 		// some other connection is alive and current, continuously: the pool has to move on within 35 simulated
 		// seconds (a generous ceiling over the documented refresh period), unless its own goroutines are stalled
-		if !poolSideStalled && snap.BestID >= 0 {
+		stalledNow := poolSideStalled
+		for _, sw := range w.Sched.Windows {
+			// ... or a caller is descheduled inside a critical section (subscribe reads the head under the pool's lock)
+			if sw.Holding && sw.From <= now && sw.To >= now-time.Millisecond {
+				stalledNow = true
+				badSince = -1
+			}
+		}
+		if !stalledNow && snap.BestID >= 0 {
 			var bestC *pool.SimConnSnapshot
 			otherGood := false
 			for i, c := range snap.Conns {
@@ -1095,7 +1103,7 @@ func execC13(t *testing.T, w *core.World, p *run.Plan, r *run.Result) {
 				// head to the waiter takes no simulated time; stalls that ended earlier only postponed it to their end)
 				stalledAtDeadline := false
 				for _, sw := range w.Sched.Windows {
-					if !strings.Contains(sw.Role, "execC13") && sw.From < trueDeadline && sw.To > trueDeadline-time.Millisecond {
+					if (!strings.Contains(sw.Role, "execC13") || sw.Holding) && sw.From < trueDeadline && sw.To > trueDeadline-time.Millisecond {
 						stalledAtDeadline = true
 					}
 				}
@@ -1206,6 +1214,7 @@ func execC13(t *testing.T, w *core.World, p *run.Plan, r *run.Result) {
 		// connection before the read returned (a), not less than any value whose write completed before the read began
 		// (b), and reads that do not overlap are monotone (c).
 		regBad := ""
+		foreignReads := map[regEvent]bool{}
 		for _, r1 := range hist {
 			if r1.write || regBad != "" {
 				continue
@@ -1226,7 +1235,22 @@ func execC13(t *testing.T, w *core.World, p *run.Plan, r *run.Result) {
 				}
 			}
 			if !explained && regBad == "" {
-				regBad = fmt.Sprintf("read of connection %d returned %d [%d,%d]: no server had handed that head to the connection by then", r1.conn, r1.v, r1.call, r1.ret)
+				// BestMasterchainClient that had to wait returns the client of the connection that was best when it
+				// was called together with the head a notification carried - after a switch that is another
+				// connection's head (observation, section 8; the property does not speak about the pairing). Such a
+				// read is recognised by its value having been handed to another connection by then.
+				foreign := false
+				for _, e := range hist {
+					if e.write && e.conn != r1.conn && e.v == r1.v && e.call < r1.ret {
+						foreign = true
+					}
+				}
+				if foreign {
+					w.Probe("best-client-returned-with-head-of-another-connection")
+					foreignReads[r1] = true
+				} else {
+					regBad = fmt.Sprintf("read of connection %d returned %d [%d,%d]: no server had handed that head to any connection by then", r1.conn, r1.v, r1.call, r1.ret)
+				}
 			}
 		}
 		if regBad != "" {
@@ -1243,6 +1267,9 @@ func execC13(t *testing.T, w *core.World, p *run.Plan, r *run.Result) {
 		kept := hist[:0:0]
 		for _, e := range hist {
 			if e.write && !readVals[wkey{e.conn, e.v}] {
+				continue
+			}
+			if !e.write && foreignReads[e] {
 				continue
 			}
 			kept = append(kept, e)
